@@ -14,7 +14,9 @@ RULE = (
     "0x-hex with mixed case, quoted char, escaped char, symbolic name; separators '...', ':' and U+2026; optional "
     "blanks) for Range, and decimal limits (0-3 fractional digits) for DecimalRange, each probed with every limit, "
     "its neighbours, mid points, far values and random values. Exhaustive: all 1-2 item descriptions with limits in "
-    "{-2..2, none} x 3 separator spellings x all values -4..4. A case is one (description, probe set); it is "
+    "{-2..2, none} x 3 separator spellings x all values -4..4. Thorough only: 12 atheris campaigns (coverage-guided, "
+    "bytes decoded to text or to a token sequence) whose target holds a reference recogniser of the documented "
+    "grammar and the same oracle. A case is one (description, probe set); it is "
     "non-trivial when it has >= 2 items, an open side, a non-decimal spelling or a separator other than '...'; "
     "distinctness is by hash of (description, kind)."
 )
@@ -165,6 +167,51 @@ def _sweep_shard(args):
     return sub
 
 
+def _fuzz_worker(args):
+    """One atheris campaign in a subprocess (atheris.Fuzz() never returns); semantic oracle inside the target."""
+    import json
+    import os
+    import shutil
+    import subprocess
+    import sys
+    import tempfile
+
+    from vlib.runner import VERIF, Sub
+
+    seed, runs = args
+    sub = Sub("atheris")
+    scratch = tempfile.mkdtemp(prefix="c01-fuzz-")
+    try:
+        out = os.path.join(scratch, "out.json")
+        corpus = os.path.join(scratch, "corpus")
+        os.makedirs(corpus)
+        for number, text in enumerate(["1...5", "0x10:0x20, 'a'…'z'", "...-0xDeadBeef", "Tab, lf...CR, 32...", "-1.5...-0.5, 0.25:"]):
+            with open(os.path.join(corpus, "seed%d" % number), "wb") as f:
+                f.write(bytes([number % 2]) + text.encode("utf-8"))
+        env = dict(os.environ, PYTHONPATH=VERIF + os.pathsep + os.path.join(VERIF, ".deps"))
+        proc = subprocess.run([sys.executable, "-m", "vlib.fuzz_range", out, "-runs=%d" % runs, "-seed=%d" % seed,
+                               "-artifact_prefix=" + scratch + os.sep, "-max_len=96", corpus],
+                              cwd=VERIF, env=env, stdout=subprocess.PIPE, stderr=subprocess.STDOUT, text=True)
+        if "No module named 'atheris'" in proc.stdout or "cannot import name" in proc.stdout:
+            sub.notes["atheris"] = "not available: fuzz campaign skipped"
+            return sub
+        stats = {}
+        if os.path.exists(out + ".stats"):
+            stats = json.load(open(out + ".stats"))
+        sub.bulk(stats.get("executions", 0), 0, {"atheris:executions": stats.get("executions", 0),
+                                               "atheris:in-grammar": stats.get("claims", 0)})
+        for text in stats.get("samples", [])[:2]:
+            sub.samples.append({"atheris_in_grammar_text": text})
+        if os.path.exists(out):
+            found = json.load(open(out))
+            sub.fail(found["signature"], found["case"], found["message"])
+        elif proc.returncode != 0:
+            sub.notes["atheris"] = "campaign ended with exit %d: %s" % (proc.returncode, proc.stdout[-300:])
+    finally:
+        shutil.rmtree(scratch, ignore_errors=True)
+    return sub
+
+
 def run(ctx):
     # corpus of hand-picked regression descriptions (quoted ellipsis, boundaries, ...)
     sub = ctx.sub("corpus")
@@ -176,9 +223,21 @@ def run(ctx):
     ctx.hyp("decimal-range", gen_range.dec_range_cases, check_case, ctx.n(1500, 50000))
     small = lambda: gen_range.int_range_cases(limits=gen_range.st.integers(-6, 6))  # noqa: E731
     ctx.hyp("range-small", small, check_case, ctx.n(1000, 30000))
+    if not ctx.quick:
+        # coverage-guided supplement (thorough only; approximately reproducible from the seed, the saved failing
+        # text is the exactly reproducible unit)
+        ctx.par(_fuzz_worker, [(ctx.seed * 100 + i + 1, 400000) for i in range(12)])
 
 
 def replay(sub, case):
+    if "fuzz_text" in case:
+        from vlib import fuzz_range
+
+        verdict = fuzz_range.judge(case["fuzz_text"], case["decimal"], ranges, errors)
+        sub.evaluations += 1
+        if verdict is not None:
+            sub.fail(verdict[0], case, verdict[1])
+        return
     check_case(sub, case)
 
 
